@@ -682,6 +682,10 @@ class PortNamespace(collections.abc.MutableMapping, Port):
         :return: an AttributesFrozenDict with pre-processed port value mapping, complemented with port default values
         """
         for name, port in self.items():
+            if isinstance(port, PortNamespace) and name in port_values and port_values[name] is None:
+                # ``None`` given for a namespace stands for "not specified", as it does for ``validate``
+                del port_values[name]
+
             # If the port was not specified in the inputs values and the port is a namespace with the property
             # `populate_defaults=False`, we skip the pre-processing and do not populate defaults.
             if name not in port_values and isinstance(port, PortNamespace) and not port.populate_defaults:
